@@ -206,6 +206,10 @@ def main(argv=None):
             if os.environ.get("VERIF_DEBUG") and i.get("last_replay"):
                 print("   last replay:", i["last_replay"])
         return EXIT_INCONCLUSIVE
+    missing = [t for t in meta.get("required_covers", []) if t not in covers] if not a.only else []
+    if missing:
+        print(f"INCONCLUSIVE property={prop} reason=unreached-covers:{','.join(missing)}")
+        return EXIT_INCONCLUSIVE
     if agg["obligations"] == 0 or agg["paths"] == 0:
         print(f"INCONCLUSIVE property={prop} reason=vacuous-run")
         return EXIT_INCONCLUSIVE
